@@ -10,6 +10,7 @@ Decided (E4 + finite tables, on the sparse operators and logical_* / elemfun / o
   CNTPRED the aggregating logical operators reduce the stacked subscript lists by group size:
           and <=> count == 2, or <=> count >= 1, xor <=> count == 1
   ZERO    values are retained in a sparse result unless they are zero (a `!= 0` test, not a sign test)
+  SUBNEG  every return of sptensor.__sub__ that is built from the right operand alone (shortcut for an empty left operand) negates it
   FILL    sparse / sparse fills the complement classes as dense division does: x/0 -> signed infinity,
           0/x -> 0, 0/0 -> NaN
   IX-cnt  result constructors receive equally many subscripts and values (symbolic row counts)
@@ -215,6 +216,33 @@ def fill_table(prog: Program, res: Result) -> None:
                     + (" with the sign of x" if want == "inf" else ""))
 
 
+def sub_shortcuts(prog: Program, res: Result) -> None:
+    """a - b with an operand that stores nothing: the shortcut for an empty LEFT operand returns the NEGATED right operand (and the shortcut
+    for an empty right operand the left one unchanged).  Every return of __sub__ that is built from `other` alone must negate it."""
+    fi = prog.func("sptensor.sptensor.__sub__")
+    me, you = fi.params()[0], fi.params()[1]
+    n = 0
+    for r in ast.walk(fi.node):
+        if not (isinstance(r, ast.Return) and r.value is not None):
+            continue
+        names = {x.id for x in ast.walk(r.value) if isinstance(x, ast.Name)}
+        if you in names and me not in names:
+            v = fi.resolve(r.value)
+            negated = (isinstance(v, ast.UnaryOp) and isinstance(v.op, ast.USub)) \
+                or (isinstance(v, ast.BinOp) and isinstance(v.op, ast.Mult) and (const(v.left) == -1 or const(v.right) == -1)) \
+                or (isinstance(v, ast.Call) and isinstance(v.func, ast.Attribute) and v.func.attr == "__neg__")
+            desc = f"a return of __sub__ built from `{you}` alone is its negation: {ast.unparse(r)[:50]}"
+            n += 1
+            if negated:
+                res.ok("SUBNEG", fi.short, desc, prog.loc(fi, r))
+            else:
+                res.bad("SUBNEG", fi.short, desc, prog.loc(fi, r),
+                        f"`{ast.unparse(r.value)[:50]}` is returned as the difference: when the left operand stores nothing, a - b comes out as +b "
+                        "(and a + b, which is computed as a - (-b), as -b)")
+    if n == 0:
+        res.undecided("SUBNEG", fi.short, "a return of __sub__ built from the right operand alone is its negation", prog.loc(fi))
+
+
 def check(prog: Program, res: Result, tier: str) -> None:
     res.explanation = __doc__.split("\n\n", 1)[1]
     res.assumptions = ["row-helper contracts are trusted (C17 does not prove them)", "operands well-formed; tensor[subs] returns one value per row",
@@ -232,4 +260,5 @@ def check(prog: Program, res: Result, tier: str) -> None:
     agg_every_path(prog, res)
     zero_filter(prog, res)
     fill_table(prog, res)
+    sub_shortcuts(prog, res)
     E.cnt_ctor(prog, res, sel)
